@@ -288,11 +288,72 @@ def is_const_data(v, depth=0):
     return False
 
 
+_MUTATORS = ('append', 'extend', 'insert', 'remove', 'pop', 'clear', 'update', 'setdefault', 'popitem', 'add', 'discard', 'sort',
+             'reverse')
+_MUTATED = []
+
+
+def mutated_names():
+    """identifiers (bare names and attribute names) that are the target of an in-place mutation somewhere in the package
+    source: x[k] = v, del x[k], x[k] += v, x.append(..) ...  A module- or class-level container with such a name is NOT
+    constant data (name-based over-approximation: sound, may refuse more than necessary)."""
+    if _MUTATED:
+        return _MUTATED[0]
+    out = set()
+
+    def base_name(e):
+        if isinstance(e, ast.Name):
+            return e.id
+        if isinstance(e, ast.Attribute):
+            return e.attr
+        return None
+
+    root = os.path.join(SRC, PKG)
+    for dp, _, files in os.walk(root):
+        for fn in files:
+            if not fn.endswith('.py'):
+                continue
+            try:
+                with open(os.path.join(dp, fn), encoding='utf-8') as f:
+                    tree = ast.parse(f.read())
+            except Exception:
+                continue
+            # only code inside functions counts: class bodies / module level build their tables once, at import
+            inside = [m for f in ast.walk(tree) if isinstance(f, (ast.FunctionDef, ast.AsyncFunctionDef, ast.Lambda))
+                      for m in ast.walk(f)]
+            for n in inside:
+                targets = []
+                if isinstance(n, ast.Assign):
+                    targets = n.targets
+                elif isinstance(n, (ast.AugAssign, ast.AnnAssign)):
+                    targets = [n.target]
+                elif isinstance(n, ast.Delete):
+                    targets = n.targets
+                for t in targets:
+                    if isinstance(t, ast.Subscript):
+                        b = base_name(t.value)
+                        if b:
+                            out.add(b)
+                if isinstance(n, ast.Call) and isinstance(n.func, ast.Attribute) and n.func.attr in _MUTATORS:
+                    b = base_name(n.func.value)
+                    if b:
+                        out.add(b)
+    _MUTATED.append(out)
+    return out
+
+
+def is_shared_mutable(name, v):
+    return isinstance(v, (list, dict, set)) and name in mutated_names()
+
+
 def resolve_global(modname, name):
     """-> (kind, payload): func/class/module/const/object/builtin/missing"""
     mo = module_obj(modname)
     if name in vars(mo):
-        return classify(vars(mo)[name])
+        v = vars(mo)[name]
+        if is_shared_mutable(name, v):
+            return ('object', v)        # a module-level container that some code mutates is state, not a constant
+        return classify(v)
     if hasattr(builtins, name):
         return classify(getattr(builtins, name))
     return ('missing', name)
